@@ -2200,7 +2200,9 @@ func (r stack) traverseStackInCondition(u any, idx int, indices ...int) (slice a
 	if c, cOK := conditionTypeAliasConverter(u); cOK {
 		// End of the line :)
 		if len(indices) <= 1 {
-			slice = c
+			// hand back the element as stored (an alias stays
+			// an alias, exactly as Index would return it)
+			slice = u
 			ok = true
 			done = true
 		} else {
